@@ -381,8 +381,19 @@ def verify_function(repo, verif, qual, opts=None):
         chunks = [set(range(k, ncases, procs * 2)) for k in range(procs * 2)]
         chunks = [ch for ch in chunks if ch]
         import multiprocessing as mp
+        budget = opts.get('func_budget_s', 1500)
         with mp.get_context('fork').Pool(procs) as pool:
-            parts = pool.map(_verify_cases, [(repo, verif, qual, opts, ch) for ch in chunks], chunksize=1)
+            res = pool.map_async(_verify_cases, [(repo, verif, qual, opts, ch) for ch in chunks], chunksize=1)
+            try:
+                parts = res.get(timeout=budget)
+            except mp.TimeoutError:
+                # safety valve, not a verdict: a change can make path exploration explode; the function is then reported as outside
+                # reach (UNDECIDED) so that the check ends and the other units of the property still report
+                pool.terminate()
+                rep = FuncReport(qual)
+                rep.error = 'outside reach: the time budget of %d s for one function was exceeded (path explosion)' % budget
+                rep.wall_s = round(time.time() - t0, 3)
+                return rep
     rep = parts[0]
     for p in parts[1:]:
         if p.error and not rep.error:
